@@ -195,7 +195,8 @@ impl<'a, T: Flt> Ck<'a, T> {
         let pb = wo.pos_break.unwrap_or(9) as i128;
         let judge = |e: i128| !fmt.no_exponent_notation && (fmt.required_exponent_notation || e < nb || e > pb);
         let allowed = [judge(e0), judge(e1)];
-        let binary_exponent_radix = radix.is_power_of_two() && radix != 2 || fmt.base != fmt.radix;
+        // mixed-base formats (mantissa radix != exponent base) have no documented unit for the break points
+        let binary_exponent_radix = fmt.base != fmt.radix;
         if fmt.no_exponent_notation && x1.has_exp {
             fail(self, "exponent notation although the format forbids it");
             return;
